@@ -88,6 +88,10 @@ static void run() {
     else if (c == "u8") { int64_t n = nint(); stack.push_back(leaf<uint8_t>(n, "B", util::dtype::uint8, false)); }
     else if (c == "f64") { int64_t n = nint(); stack.push_back(leaf<double>(n, "d", util::dtype::float64, true)); }
     else if (c == "f32") { int64_t n = nint(); stack.push_back(leaf<float>(n, "f", util::dtype::float32, true)); }
+    else if (c == "dt64") { std::string unit = next(); int64_t n = nint(); std::shared_ptr<void> ptr(malloc(n == 0 ? 8 : n * 8), free);
+      for (int64_t i = 0; i < n; i++) ((int64_t*)ptr.get())[i] = nint();
+      std::vector<ssize_t> shape({(ssize_t)n}), strides({8});
+      stack.push_back(std::make_shared<NumpyArray>(noid, noparams, ptr, shape, strides, 0, 8, std::string("M8[") + unit + "]", util::dtype::datetime64, kernel::lib::cpu)); }
     else if (c == "bool") { int64_t n = nint(); stack.push_back(leaf<uint8_t>(n, "?", util::dtype::boolean, false)); }
     else if (c == "i64nd") { int64_t nd = nint(); std::vector<ssize_t> shape, strides((size_t)nd); int64_t tot = 1;
       for (int64_t i = 0; i < nd; i++) { shape.push_back((ssize_t)nint()); tot *= shape.back(); }
@@ -214,6 +218,8 @@ static void run() {
     else if (c == "depths") { ContentPtr a = pop(); std::pair<int64_t, int64_t> mm = a.get()->minmax_depth(); std::pair<bool, int64_t> bd = a.get()->branch_depth();
       printf("OK [%lld, %lld, %lld, %d, %lld, %lld]\n", (long long)a.get()->purelist_depth(), (long long)mm.first, (long long)mm.second, (int)bd.first, (long long)bd.second, (long long)a.get()->numfields());
       fflush(stdout); _Exit(0); }
+    else if (c == "viewint64") { ContentPtr a = pop(); NumpyArray* r = dynamic_cast<NumpyArray*>(a.get()); if (!r || r->itemsize() != 8) throw std::runtime_error("akrun: viewint64 needs a NumpyArray of 8-byte items");
+      stack.push_back(std::make_shared<NumpyArray>(noid, noparams, r->ptr(), r->shape(), r->strides(), r->byteoffset(), 8, "l", util::dtype::int64, kernel::lib::cpu)); }
     else if (c == "astype") { std::string nm = next(); ContentPtr a = pop(); stack.push_back(a.get()->numbers_to_type(nm)); }
     else if (c == "numkeys") { ContentPtr a = pop(); printf("OK %lld\n", (long long)a.get()->keys().size()); fflush(stdout); _Exit(0); }
     else if (c == "drop") { pop(); }
